@@ -14,16 +14,16 @@ claimed = {
    note=NOTE_COMMON + "outside: that both Handshake() calls return over a real transport and the end-to-end echo with real ciphers (needs two concurrent endpoints and real crypto; record path is C04-C06), peer-certificate list equality (C02/C07 x509 harnesses cover what each side installs); the hello codecs are assumed to be the identity on negotiated fields (C14).",
    ref="section 6 C01"),
  "C02": dict(
-   text="Bounded symbolic execution of the client's real code: (a) the whole clientHandshake state machine under cut M against a symbolic peer that chooses one of ten message kinds at every read (full and resumed, 0..2 client key pairs, arbitrary cached session): completion implies the certificate check ran with a positive verdict (full: verifyServerCertificate; resumed: the session's certificates under the current configuration), the ServerKeyExchange signature was verified, the accepted Finished equals all 12 bytes of PRF(master, 'server finished', transcript) with master derived from this handshake's pre-master secret or the cached master secret, and every failing path leaves handshakeStatus 0; (b) the real verifyServerCertificate / verifySessionCertificates over an X.509 stub: both certificates verified with configured roots, time and server name, rest as intermediates, both verdicts honoured, fewer than 2 certificates rejected; (c) the real processServerKeyExchange of both key-exchange families: signature checked with the SIGNING certificate's key over client_random || server_random || parameters. Both stacks for (b),(c); tlcp for (a).",
+   text="Bounded symbolic execution of the client's real code: (a) the whole clientHandshake state machine under cut M against a symbolic peer that chooses one of ten message kinds at every read (full and resumed, 0..2 client key pairs, arbitrary cached session): completion implies the certificate check ran with a positive verdict (full: verifyServerCertificate; resumed: the session's certificates under the current configuration), the ServerKeyExchange signature was verified, the accepted Finished equals all 12 bytes of PRF(master, 'server finished', transcript) with master derived from this handshake's pre-master secret or the cached master secret, and every failing path leaves handshakeStatus 0; (b) the real verifyServerCertificate / verifySessionCertificates over an X.509 stub: both certificates verified with configured roots, time and server name, rest as intermediates, both verdicts honoured, fewer than 2 certificates rejected; (c) the real processServerKeyExchange of both key-exchange families: signature checked with the SIGNING certificate's key over client_random || server_random || parameters. All three on both stacks (the dtlcp driver enters after the cookie phase, which the hsMd group covers).",
    note=NOTE_COMMON + "E8-E11 stubs: signature / X.509 verdicts are arbitrary and their arguments logged; the correctness of smx509 and SM2 themselves is trusted; the enumerated impostor catalogue with real certificates is subsumed by the arbitrary verdicts.",
    ref="section 6 C02"),
  "C03": dict(
-   text="Bounded symbolic execution of both real handshake state machines (tlcp, cut M) against a symbolic peer: on every completing path the bytes fed to the Finished transcript are exactly the handshake messages in wire order (sent ones as marshalled, received ones as delivered) up to the peer's Finished, the accepted Finished equals all 12 bytes of the PRF output over that transcript, ChangeCipherSpec immediately precedes the peer's Finished, exactly one ChangeCipherSpec is sent; the record layer accepts a ChangeCipherSpec only when expected, with body 01 and no partial handshake message pending (real readRecordOrCCS on an arbitrary stream). No panic on any explored path. Together with collision-free hash/PRF (assumed) equal Finished values imply identical transcripts, hence identical views.",
-   note=NOTE_COMMON + "E4/E5 idealisation (equal PRF outputs => equal transcripts) is assumed, not decided; DTLCP handshake state machines are not yet driven (their record and codec layers are).",
+   text="Bounded symbolic execution of the real handshake state machines (tlcp client and server, dtlcp client; cut M) against a symbolic peer: on every completing path the bytes fed to the Finished transcript are exactly the handshake messages in wire order (sent ones as marshalled, received ones as delivered) up to the peer's Finished, the accepted Finished equals all 12 bytes of the PRF output over that transcript, ChangeCipherSpec immediately precedes the peer's Finished, exactly one ChangeCipherSpec is sent; the record layer accepts a ChangeCipherSpec only when expected, with body 01 and no partial handshake message pending (real readRecordOrCCS on an arbitrary stream). No panic on any explored path. Together with collision-free hash/PRF (assumed) equal Finished values imply identical transcripts, hence identical views.",
+   note=NOTE_COMMON + "E4/E5 idealisation (equal PRF outputs => equal transcripts) is assumed, not decided; the dtlcp server driver serves C07/C08/C10 only in the quick tier.",
    ref="section 6 C03"),
  "C04": dict(
-   text="Bounded symbolic execution, equivalence against a reference written from GB/T 38636 6.5 with HMAC-SM3/SM3 as shared uninterpreted functions, both stacks: master secret = PRF(pre, 'master secret', client||server)[:48]; key block = PRF(master, 'key expansion', server||client) cut as client MAC, server MAC, client key, server key, client IV, server IV for the four suites; Finished = PRF(master, label, SM3(transcript))[:12]; establishKeys of both roles installs the peer's write keys for reading (CBC reader gets a decrypter); the client's pre-master secret = offered version || 46 random bytes encrypted to the ENCRYPTION certificate; in the handshake drivers the Finished PRF is keyed with the master secret derived in this handshake (or the cached one on resumption) and one key expansion happens per connection; record header lengths are consistent.",
-   note=NOTE_COMMON + "E4/E5/E9 idealisations; gmsm's SM2/SM3/SM4, crypto/hmac, crypto/cipher are trusted; MAC-input / nonce / additional-data equivalence of the record layer is covered indirectly by the C05 stream harness (a sender/receiver mismatch or a missing authenticated field shows there), nonce uniqueness rests on incSeq (+1 or panic).",
+   text="Bounded symbolic execution, equivalence against a reference written from GB/T 38636 6.5 with HMAC-SM3/SM3 as shared uninterpreted functions, both stacks: master secret = PRF(pre, 'master secret', client||server)[:48]; key block = PRF(master, 'key expansion', server||client) cut as client MAC, server MAC, client key, server key, client IV, server IV for the four suites; Finished = PRF(master, label, SM3(transcript))[:12]; establishKeys of both roles installs the peer's write keys for reading (CBC reader gets a decrypter); the client's pre-master secret = offered version || 46 random bytes encrypted to the ENCRYPTION certificate; in the handshake drivers the Finished PRF is keyed with the master secret derived in this handshake (or the cached one on resumption) and one key expansion happens per connection; record layout lemma on both stacks: MAC input = seq(8) || type || version || length || plaintext, GCM nonce = IV(4) || seq(8) = explicit nonce on the wire, additional data = seq || type || version || plaintext length, CBC padding bytes = padLen-1 and whole blocks, sequence +1 per record (dtlcp: the 8 bytes are epoch || 48-bit sequence as in the header); a genuine record with any single header byte changed (type, version, epoch, sequence, length) is never delivered.",
+   note=NOTE_COMMON + "E4/E5/E9 idealisations; gmsm's SM2/SM3/SM4, crypto/hmac, crypto/cipher are trusted; nonce uniqueness rests on the +1 sequence step (incSeq wrap panics after 2^64 records; dtlcp writeSeq has no guard at 2^48, outside the bound).",
    ref="section 6 C04"),
  "C05": dict(
    text="Bounded symbolic execution of the real Write -> attacker -> Read path of the stream stack for SM4-GCM and SM4-CBC: 2 genuine application records from the sender's real write path, then an ARBITRARY attacker stream (arbitrary type/version/contents, record lengths case-split around the genuine lengths; GCM up to 3 records, CBC 1 (quick) / 2 (thorough)), then 3-4 Reads with buffers of 1-2 bytes: bytes handed out are a prefix of the genuine plaintext, in order; after the first error every Read fails with no bytes. Plus extractPadding == the TLS 1.0 padding specification for every payload of 0..48 (quick) / 0..300 (thorough) bytes, both stacks.",
@@ -34,39 +34,39 @@ claimed = {
    note=NOTE_COMMON + "E5-E7; contents checked on small writes only (sizes by the inductive lemma); counters assumed below 2^62.",
    ref="section 6 C06"),
  "C07": dict(
-   text="Bounded symbolic execution of the server's real code: (a) the whole serverHandshake state machine (tlcp, cut M) against a symbolic client for the six policies, ECC/ECDHE, arbitrary cached session: CertificateRequest sent iff policy > NoClientCert or ECDHE; a non-empty peer-certificate list implies CertificateVerify was demanded and verified with certificate 0's key over the transcript up to and including ClientKeyExchange; verifiedChains set only after chain verification; a session is resumed only if the current policy would have allowed it and its certificates are re-verified; (b) the real processCertsFromClient of both stacks over an X.509 stub: required => present, ECDHE => two certificates, verification with ClientCAs, configured time and the right key usages, verdicts honoured.",
+   text="Bounded symbolic execution of the server's real code: (a) the whole serverHandshake state machine (both stacks, cut M) against a symbolic client for the six policies, ECC/ECDHE, arbitrary cached session: CertificateRequest sent iff policy > NoClientCert or ECDHE; a non-empty peer-certificate list implies CertificateVerify was demanded and verified with certificate 0's key over the transcript up to and including ClientKeyExchange; verifiedChains set only after chain verification; a session is resumed only if the current policy would have allowed it and its certificates are re-verified; (b) the real processCertsFromClient of both stacks over an X.509 stub: required => present, ECDHE => two certificates, verification with ClientCAs, configured time and the right key usages, verdicts honoured.",
    note=NOTE_COMMON + "E8, E10, E11 stubs with arbitrary verdicts.",
    ref="section 6 C07"),
  "C08": dict(
-   text="Bounded symbolic execution of both real handshake state machines (tlcp, cut M) against a peer that chooses one of ten message kinds (or an error) at every read, ECC and ECDHE, full and resumed, sequences up to 12 reads: completion implies the sequence of kinds consumed is exactly the legal one (client: SH, Cert, SKX, [CertReq], SHD, CCS, Fin | SH, CCS, Fin; server: CH, [Cert iff requested], CKE, [CertVerify iff certificate sent], CCS, Fin | CH, CCS, Fin); plus the real record layer before completion: application data refused, ChangeCipherSpec only when expected, empty handshake records refused, at most 16 consecutive non-advancing records.",
+   text="Bounded symbolic execution of the real handshake state machines (client and server, both stacks, cut M; on the datagram stack a retransmitted ClientHello and the cookie round trip are outside the message sequence) against a peer that chooses one of ten message kinds (or an error) at every read, ECC and ECDHE, full and resumed, sequences up to 12 reads: completion implies the sequence of kinds consumed is exactly the legal one (client: SH, Cert, SKX, [CertReq], SHD, CCS, Fin | SH, CCS, Fin; server: CH, [Cert iff requested], CKE, [CertVerify iff certificate sent], CCS, Fin | CH, CCS, Fin); plus the real record layer before completion: application data refused, ChangeCipherSpec only when expected, empty handshake records refused, at most 16 consecutive non-advancing records.",
    note=NOTE_COMMON + "signature / Finished / X.509 verdicts are arbitrary so that a deviating peer 'keeps its keys and transcript consistent'.",
    ref="section 6 C08"),
  "C09": dict(
-   text="Bounded symbolic execution with every index / slice bound / type assertion / nil dereference / division as a checked panic event: all 9+10 unmarshal functions on arbitrary bytes (0..16/24, hellos 0..50/58 bytes), framed strings, every key-exchange processing function of both roles on arbitrary bodies and certificate key types, fragment buffer on hostile 24-bit offsets, the record layer on arbitrary streams (every accepted record consumes input, 17th non-advancing record is refused), post-handshake handshake records do not accumulate (tlcp), and no panic on any path of the handshake drivers, x509 and stream harnesses.",
-   note=NOTE_COMMON + "E1, E5-E10; DTLCP readHandshake fragment-iteration and pending-buffer bounds are not yet covered.",
+   text="Bounded symbolic execution with every index / slice bound / type assertion / nil dereference / division as a checked panic event: all 9+10 unmarshal functions on arbitrary bytes (0..16/24, hellos 0..50/58 bytes), framed strings, every key-exchange processing function of both roles on arbitrary bodies and certificate key types, fragment buffer on hostile 24-bit offsets, the record layer on arbitrary streams (every accepted record consumes input, 17th non-advancing record is refused), post-handshake handshake records do not accumulate (both stacks), floods of empty application-data records, of warning alerts and of one-byte fragments with fresh message sequence numbers are cut off (pending reassembly buffers <= 256), a malformed datagram never panics an established connection; loops that are still running at the unwinding bound on finite input are reported as non-progress violations (spin); no panic on any path of the drivers, x509 and stream harnesses.",
+   note=NOTE_COMMON + "E1, E5-E10.",
    ref="section 6 C09"),
  "C10": dict(
-   text="Bounded symbolic execution of both real handshake state machines (tlcp, cut M) with an arbitrary session cache content (E11): client resumes iff a session was offered and the ServerHello echoes its id, then version and suite match the session, the cached master secret keys both Finished values, the recorded peer identity is restored (after re-verification), exactly one key expansion with this connection's randoms happens; otherwise a full handshake with no dependence on the stale session; new sessions are stored under both keys with a private 48-byte master secret only after the peer's Finished verified; a failed handshake drops the offered session under both keys and caches nothing. Server: resumes only with a cached session of the same version whose suite the client still offers and the configuration still enables, echoes the id, otherwise full handshake with a 32-byte id drawn from Rand; failed handshakes cache nothing.",
-   note=NOTE_COMMON + "histories are covered by the arbitrary cache content rather than by enumerating connection sequences; DTLCP state machines not yet driven.",
+   text="Bounded symbolic execution of the real handshake state machines (client and server, both stacks, cut M) with an arbitrary session cache content (E11), plus the server's resumption decision (real checkForResumption, both stacks) for an arbitrary hello / configuration / cached session, plus the honest DTLCP resumption flight (ServerHello, ChangeCipherSpec, Finished in one datagram) being readable by the client: client resumes iff a session was offered and the ServerHello echoes its id, then version and suite match the session, the cached master secret keys both Finished values, the recorded peer identity is restored (after re-verification), exactly one key expansion with this connection's randoms happens; otherwise a full handshake with no dependence on the stale session; new sessions are stored under both keys with a private 48-byte master secret only after the peer's Finished verified; a failed handshake drops the offered session under both keys and caches nothing. Server: resumes only with a cached session of the same version whose suite the client still offers and the configuration still enables, echoes the id, otherwise full handshake with a 32-byte id drawn from Rand; failed handshakes cache nothing.",
+   note=NOTE_COMMON + "histories are covered by the arbitrary cache content rather than by enumerating connection sequences.",
    ref="section 6 C10"),
  "C11": dict(
    text="Bounded symbolic execution of the real lruSessionCache (with the real container/list) of both stacks against a reference LRU written in the harness: capacity 1..3 (quick) / 1..4 (thorough), 4 / 5 operations, each an arbitrary choice of Put(new) / Put(object already stored under another key: the createNewSession aliasing pattern) / Put(nil) / Get(k) / Get(\"\"), keys arbitrary one-byte strings (every equality pattern): size bound, agreement with the reference after every operation, stored master secrets intact. NewLRUSessionCache(n) for every n.",
    note=NOTE_COMMON + "sessions are identified by content, not by pointer; the 'concurrent use is equivalent to some sequential order' clause is not decided (single goroutine; see C13).",
    ref="section 6 C11"),
  "C12": dict(
-   text="Bounded symbolic execution of the real stream stack with ideal crypto: transport end at EVERY byte offset of a stream of 1..2 data records and an optional close_notify: io.EOF only on a record boundary or after close_notify and only after every earlier byte was delivered, io.ErrUnexpectedEOF inside a record; after EOF later Reads keep failing; Close then Close => net.ErrClosed, Write after Close fails; before the handshake completes application data is refused with a latched error; every failing path of both handshake drivers leaves handshakeStatus 0; the C05 stream harness shows read errors are sticky.",
+   text="Bounded symbolic execution of the real stream stack with ideal crypto: transport end at EVERY byte offset of a stream of 1..2 data records and an optional close_notify: io.EOF only on a record boundary or after close_notify and only after every earlier byte was delivered, io.ErrUnexpectedEOF inside a record; after EOF later Reads keep failing; Close then Close => net.ErrClosed, Write after Close fails; before the handshake completes application data is refused with a latched error; every failing path of the handshake drivers leaves the connection incomplete; call sequences of 3/4 arbitrary Read / Write (0 or 1 byte) / CloseWrite / Close with a genuine and an unauthentic record incoming: Close, CloseWrite, read errors and sent fatal alerts stay reported; Handshake runs the handshake function once and keeps returning its error (both stacks).",
    note=NOTE_COMMON + "cancellation of the handshake context (goroutine + channels) is outside the technique; Write after a RECEIVED fatal alert is not required to fail (as in crypto/tls).",
    ref="section 6 C12"),
  "C14": dict(
-   text="Bounded symbolic execution of every handshake codec of both stacks (real cryptobyte code included): forward unmarshal(marshal(m)) == m for arbitrary in-range fields with bounded list sizes, every ClientHello extension one at a time and all at once; reverse: arbitrary bytes framed as readHandshake frames them, accept => re-encoding reproduces the input (extension-free forms of the hellos); totality: no panic on arbitrary bytes.",
+   text="Bounded symbolic execution of every handshake codec of both stacks (real cryptobyte code included): forward unmarshal(marshal(m)) == m for arbitrary in-range fields with bounded list sizes, every ClientHello extension one at a time and all at once; reverse: arbitrary bytes framed as readHandshake frames them, accept => re-encoding reproduces the input (extension-free forms of the hellos); one arbitrary byte appended inside each known ClientHello extension is rejected; totality: no panic on arbitrary bytes.",
    note=NOTE_COMMON + "framing precondition of unmarshal (type byte and 24-bit length as readHandshake guarantees); hellos WITH extension blocks are covered in the forward direction and for totality only.",
    ref="section 6 C14"),
  "C15": dict(
-   text="Bounded symbolic execution of the real DTLCP write path (maxPayloadSizeForWrite, writeRecordLocked, encrypt, writeHandshakeRecord, write/flush): PMTU arbitrary in {0 = default 1400} u [96, 20000], payload length arbitrary (symbolic) in 1..maxPayload, cipher none / GCM / CBC: exactly one datagram, at most PMTU bytes, at most 16384 bytes of plaintext, header length consistent; Write of a longer buffer (PMTU 96..98) is split into datagrams that each fit, in order, with consecutive sequence numbers; a buffered handshake flight of 2..3 records: every datagram must fit the PMTU (fails: known finding K3).",
+   text="Bounded symbolic execution of the real DTLCP write path (maxPayloadSizeForWrite, writeRecordLocked, encrypt, writeHandshakeRecord, write/flush): PMTU arbitrary in {0 = default 1400} u [96, 20000], payload length arbitrary (symbolic) in 1..maxPayload, cipher none / GCM / CBC: exactly one datagram, at most PMTU bytes, at most 16384 bytes of plaintext, header length consistent; Write of a longer buffer (PMTU 96..98) is split into datagrams that each fit, in order, with consecutive sequence numbers; a buffered handshake flight of 2..3 records: every datagram must fit the PMTU (fails: known finding K3); the buffer readDatagram offers holds the largest datagram the write path can emit (PMTU up to 40000).",
    note=NOTE_COMMON + "length-only cipher stubs (contents irrelevant); PMTU below 96 is outside (a CBC record cannot carry one byte below 77); the receive side (ReadFrom returns exactly the payload) is covered by the C16 connection harness for 1-byte payloads only.",
    ref="section 6 C15"),
  "C16": dict(
-   text="Bounded symbolic execution: (a) one replayWindow.check step from an ARBITRARY window state satisfying the representation invariant (histories of any length, full 48-bit space, size in [-4, 2^20]) and 3/4 arbitrary checks from the initial state against a ghost 'seen' set: at most once, completeness inside max(32,min(size,64)), frame on reject; (b) an established DTLCP connection (epoch 1, ideal AEAD / CBC + unforgeable MAC): 2 genuine records from the real write path, then up to 3 (GCM) / 2 (CBC) deliveries, each a genuine datagram (any order, duplicates) or an ARBITRARY forgery with attacker-chosen epoch, through ReadFrom and through Read: only genuine payloads, each at most once, every genuine record that arrived is delivered the first time whatever forgeries preceded it.",
+   text="Bounded symbolic execution: (a) one replayWindow.check step from an ARBITRARY window state satisfying the representation invariant (histories of any length, full 48-bit space, size in [-4, 2^20]) and 3/4 arbitrary checks from the initial state against a ghost 'seen' set: at most once, completeness inside max(32,min(size,64)), frame on reject; (b) an established DTLCP connection (epoch 1, ideal AEAD / CBC + unforgeable MAC): 2 genuine records from the real write path, then up to 3 (GCM) / 2 (CBC) deliveries, each a genuine datagram (any order, duplicates) or an ARBITRARY forgery with attacker-chosen epoch, through ReadFrom and through Read: only genuine payloads, each at most once, every genuine record that arrived is delivered the first time whatever forgeries preceded it; a malformed datagram (any version, lying length) neither panics nor blocks the genuine record behind it; a genuine datagram with one header byte changed is not delivered and does not move the read epoch.",
    note=NOTE_COMMON + "E5-E7; under E7 (CBC = identity) a datagram differing from a genuine one only in the explicit IV counts as that genuine record; quick tier: at most one forgery per CBC run; 1-byte payloads.",
    ref="section 6 C16"),
  "C17": dict(
@@ -78,7 +78,7 @@ claimed = {
    note=NOTE_COMMON + "E5; the rest of the handshake after the cookie phase is a stub that records that the server committed; private-key operations happen only after that point (doFullHandshake), which is checked by reading order, not by this harness.",
    ref="section 6 C18"),
  "C19": dict(
-   text="Bounded symbolic execution of per-endpoint lemmas the DTLS robustness argument rests on: RetransmitTimer (initial/max arbitrary up to 2^40 ns, 5/7 arbitrary operations): back-off doubles up to max and re-arms, reset restores the initial value, defaults 1 s / 60 s; the REAL client cookie phase against a server that answers every flight at once: the client never waits for input while it owes a flight (no timeout can expire without a fault); before completion the record layer never hands out application data; an overtaking ChangeCipherSpec+Finished datagram must not be fatal (fails: known finding F11).",
+   text="Bounded symbolic execution of per-endpoint lemmas the DTLS robustness argument rests on: RetransmitTimer (initial/max arbitrary up to 2^40 ns, 5/7 arbitrary operations): back-off doubles up to max and re-arms, reset restores the initial value, defaults 1 s / 60 s; the REAL client cookie phase against a server that answers every flight at once: the client never waits for input while it owes a flight (no timeout can expire without a fault); in the dtlcp client driver a timeout while waiting for the server's last flight of a full handshake makes the client resend its own last flight byte for byte as the next datagram; before completion the record layer never hands out application data; an overtaking ChangeCipherSpec+Finished datagram must not be fatal (fails: known finding F11).",
    note=NOTE_COMMON + "NOT decided: that both endpoints complete within the retransmission schedule under every pattern of up to k lost / duplicated / reordered datagrams (a liveness property of two concurrent endpoints, timers and a network; the engine runs one sequential endpoint).",
    ref="section 6 C19"),
  "C20": dict(
